@@ -314,8 +314,11 @@ func genCodecCase(r *core.Rand, c *SCase) {
 // findings - for trying a candidate fix, or once the findings are entries of known_findings.json.  It only
 // influences which cases are generated; a case, once generated, is replayed from its file as usual.
 func codecNoSidestep(what string) bool {
-	v := os.Getenv("VERIF_C07_ALL")
-	return v == "1" || strings.Contains(v, what)
+	// the three findings the generator used to avoid (out-of-order merge with a segment size that is not a multiple
+	// of 8; -0.0 under MLF; all-zero float blocks with a -0.0) are fixed in /repo (4ae86aa, da7684f, 0e4dc04) and
+	// listed as fixed: nothing is avoided any more unless VERIF_C07_SIDESTEP names it (triage aid for older trees)
+	v := os.Getenv("VERIF_C07_SIDESTEP")
+	return !(v == "1" || strings.Contains(v, what))
 }
 
 // genCodecDenseWrite: one series, a contiguous run of slots (1 row, a few rows,
@@ -405,6 +408,16 @@ func genCodecColumnFill(r *core.Rand, c *SCase, m, s int) []SRow {
 	// chunk buffer with the raw size of the block, so those modes are only chosen for a block near the start of a chunk.  A fill that
 	// carries the integer field and (rarely, for the nulls) the boolean field alone keeps the chunk small enough for that.
 	intOnly := r.Intn(3) == 0
+	// a hole: one field is absent over a stretch of at least two segments (or a third of the column) -> all-null blocks of that
+	// field, and blocks with leading / trailing nulls next to them
+	holeF, holeA, holeN := r.Intn(4), 0, 0
+	if !intOnly && r.Bool(0.5) {
+		holeN = 2 * c.Knobs.RowsPerSegment
+		if holeN > nt/2 {
+			holeN = nt / 3
+		}
+		holeA = r.Intn(nt - holeN + 1)
+	}
 	for t := 0; t < nt; t++ {
 		f := 15
 		if intOnly {
@@ -414,6 +427,12 @@ func genCodecColumnFill(r *core.Rand, c *SCase, m, s int) []SRow {
 			}
 		} else if r.Intn(8) == 0 {
 			f = 15 &^ (1 << uint(r.Intn(4)))
+		}
+		if t >= holeA && t < holeA+holeN {
+			f &^= 1 << uint(holeF)
+			if f == 0 {
+				f = 1 << uint((holeF+1)%4)
+			}
 		}
 		rows = append(rows, SRow{M: m, S: s, T: t, F: f})
 	}
